@@ -212,3 +212,15 @@ CHECKS["C20"] = dict(
     assumptions=E1_ASSUME,
     units=[dict(pkg="notify", test="TestVerifC20", shards_quick=16, shards_thorough=16, budget_quick=100, budget_thorough=1500)],
 )
+
+CHECKS["C11"] = dict(
+    level="fault_enumeration",
+    engine="crashx",
+    rule="a history of 3 snapshots written by the real Maintenance loop (GC, openReplace, Snapshot, Sync, Close, Rename) on a logging in-memory file system; every prefix of the operation log with writes split per byte / 64-byte block, as a process kill and as every power-loss image (namespace-suffix loss x unsynced-data loss x zero-filled tail, rename may overtake unsynced data); the real loader runs on each image; each image with a leftover temp file is also continued (restart, shrink, one complete snapshot, clean start); plus every byte prefix / byte substitution of a valid snapshot. distinct = (kind, visible snapshot, file count) classes",
+    technique="exhaustive crash-point and lost-write enumeration over the recorded write history of the real snapshot writer, real loader on every image",
+    level_text="For silences and the notification log independently: on every crash image the loader starts without error and loads exactly the state captured by the snapshot that the durable renames make visible (never torn, partial or mixed); a leftover temp file never corrupts a later snapshot; every byte prefix of a snapshot decodes to an error or exactly the wholly contained records; no byte substitution makes the loader panic; snapshot -> load reproduces every entry (multiple matcher sets, annotations, receiver data, legacy shapes).",
+    level_note="Power-loss model: ordered namespace journal, unsynced data lost from any point, rename may be durable before data. Durability of the rename itself is not demanded (the code never fsyncs the directory): an earlier complete snapshot is accepted when later renames are lost.",
+    assumptions=["the vfs shim (overlay: os -> vfs in silence.go and nflog.go) implements create/truncate/write-at-offset/sync/rename/remove faithfully", "firmware that lies about flushes, bit rot and directory-entry reordering are out of scope"],
+    units=[dict(pkg="silence", test="TestVerifC11Silences", shards_quick=8, shards_thorough=16, budget_quick=100, budget_thorough=1500),
+           dict(pkg="nflog", test="TestVerifC11Nflog", shards_quick=8, shards_thorough=16, budget_quick=100, budget_thorough=1500)],
+)
